@@ -24,7 +24,9 @@
  *   iref I R              > iref ok|end                reference := iterator position
  *   ls C P                > ls <st> key,key,...        whole directory, iteration order
  *   dump C                > dump path=value/P|V;...    walk by iterators from the root
+ *   dumpat C P            > dump path=value/P|V;...    the same walk below the directory P
  *   open C FILE           > open <st>                  kdump_open_fd
+ *   popen C FILE          > open <st>  and  > predump <tree before the failure teardown | ->
  *   nfiles C N            (same as set C file.set.number num:N)
  * The persistence flag printed by `dump` is read from the library's private
  * struct attr_data through the reference (it is the "set by the application"
@@ -186,6 +188,47 @@ static void dump_dir(kdump_ctx_t *ctx, const kdump_attr_ref_t *dir, char *path, 
 	kdump_attr_iter_end(ctx, &it);
 }
 
+/* the same walk over the private structures (no public call: used inside kdump_open_fd, where the lock is held) */
+static void priv_dump_dir(FILE *f, struct attr_data *dir, char *path, size_t plen, int *first)
+{
+	struct attr_data *d;
+	for (d = dir->dir; d; d = d->next) {
+		kdump_attr_t a;
+		const char *key = d->template->key;
+		size_t l = strlen(key), nl = plen + (plen ? 1 : 0) + l;
+		if (!attr_isset(d)) continue;
+		if (nl >= 4000) break;
+		if (plen) path[plen] = '.';
+		memcpy(path + plen + (plen ? 1 : 0), key, l);
+		a.type = d->template->type;
+		if (a.type != KDUMP_DIRECTORY) a.val = *attr_value(d);
+		fprintf(f, "%s%.*s=", *first ? "" : ";", (int)nl, path);
+		*first = 0;
+		pval(f, &a, d);
+		fprintf(f, "/%c", d->flags.persist ? 'P' : 'V');
+		if (a.type == KDUMP_DIRECTORY) priv_dump_dir(f, d, path, nl, first);
+	}
+}
+
+/* popen: what a probe that fails had set before open_dump() tore it down again.  clear_volatile_attrs() runs once
+ * when the open starts and once more on the failure path: the tree is written down before the second call. */
+static int cv_capture, cv_calls;
+static char *cv_text; static size_t cv_len;
+void __real__kdumpfile_priv_clear_volatile_attrs(kdump_ctx_t *ctx);
+void __wrap__kdumpfile_priv_clear_volatile_attrs(kdump_ctx_t *ctx)
+{
+	if (cv_capture && ++cv_calls == 2) {
+		static char path[4096];
+		int first = 1;
+		FILE *f = open_memstream(&cv_text, &cv_len);
+		struct attr_data *root = lookup_attr(ctx->dict, NULL);
+		if (root && attr_isset(root)) priv_dump_dir(f, root, path, 0, &first);
+		else fprintf(f, "!root-unset");
+		fclose(f);
+	}
+	__real__kdumpfile_priv_clear_volatile_attrs(ctx);
+}
+
 int main(void)
 {
 	static char line[1 << 17], a1[1 << 16], a2[1 << 16];
@@ -305,6 +348,29 @@ int main(void)
 			else if (!kdump_attr_ref_isset(&root)) printf("!root-unset");
 			else dump_dir(ctxs[c], &root, path, 0, &first);
 			putchar('\n');
+		} else if (sscanf(line, "dumpat %d %4000s", &c, a1) == 2) {
+			/* the walk of `dump`, started at the directory a1 (works through a clone's private dictionary) */
+			static char path[4096];
+			kdump_attr_ref_t dir; int first = 1;
+			st = kdump_attr_ref(ctxs[c], a1, &dir);
+			printf("> dump ");
+			if (st != KDUMP_OK) printf("!ref-%s", kstatus_name(st));
+			else if (!kdump_attr_ref_isset(&dir)) printf("!root-unset");
+			else { strcpy(path, a1); dump_dir(ctxs[c], &dir, path, strlen(a1), &first); }
+			putchar('\n');
+			if (st == KDUMP_OK) kdump_attr_unref(ctxs[c], &dir);
+		} else if (sscanf(line, "popen %d %65535s", &c, a1) == 2) {
+			int fd = open(a1, O_RDONLY);
+			if (fd < 0) { puts("> open nofile"); puts("> predump -"); continue; }
+			if (dup2(fd, 100 + c) < 0) { puts("> open nodup"); puts("> predump -"); continue; }
+			close(fd);
+			ctxfd[c][0] = 100 + c; nctxfd[c] = 1;
+			cv_capture = 1; cv_calls = 0; cv_text = NULL;
+			st = kdump_open_fd(ctxs[c], 100 + c);
+			cv_capture = 0;
+			printf("> open %s%s\n", kstatus_name(st), c16_monitor(ctxs[c], st));
+			printf("> predump %s\n", cv_text ? cv_text : "-");
+			free(cv_text); cv_text = NULL;
 		} else if (sscanf(line, "open %d %65535s", &c, a1) == 2) {
 			int fd = open(a1, O_RDONLY);
 			if (fd < 0) { puts("> open nofile"); continue; }
